@@ -317,7 +317,14 @@ fn direct(src: &mut Src, st: &mut Stats, _env: &Env) -> CaseResult {
         "to_number" => {
             (matches!(g, J::Num(_)) || g.is_null()) && (g.deep_eq(&w) || cx.ambiguous.iter().any(|a| a.starts_with("to_number")))
         }
-        "sum" | "avg" => g.approx_eq(&w, 1e-9),
+        "sum" | "avg" => {
+            g.approx_eq(&w, 1e-9) || {
+                // cancellation: any summation method within the a-priori error bound is "the sum"
+                let xs: Vec<f64> = d.args[0].as_arr().map(|a| a.iter().filter_map(|x| x.as_num()).collect()).unwrap_or_default();
+                let scale = if d.name == "avg" { xs.len().max(1) as f64 } else { 1.0 };
+                cx.ambiguous.contains(&"sum-rounding") && matches!((g.as_num(), w.as_num()), (Some(a), Some(b2)) if (a - b2).abs() <= refeval::sum_bound(&xs) / scale)
+            }
+        }
         "type" if cx.ambiguous.contains(&"expref-for-any") => true,
         _ => g.deep_eq(&w),
     };
